@@ -65,7 +65,8 @@ def trace_facts(tr):
     valid_final = any(e['ev'] == 'srv' and e.get('finalValid') for e in evs)
     ok = any(e['ev'] == 'ret' and e.get('ok') for e in evs)
     return {'success_without_valid_server_final': ok and not valid_final,
-            'client_acked': any(e['ev'] == 'cli' and e.get('kind') == 'ack' for e in evs),
+            # (acknowledged within the RUNNING exchange: an "empty" challenge restarts the exchange and the client state)
+            'client_acked': any(e['ev'] == 'cli' and e.get('kind') == 'ack' for e in evs[max([0] + [i for i, e in enumerate(evs) if e['ev'] == 'cli' and e.get('kind') == 'first']):]),
             'ended_by_235': any(e['ev'] == 'srv' and e.get('sym') == 'ok235' for e in evs)}
 
 
